@@ -34,12 +34,15 @@ CFG = {
             "extra w / third vt component, 1/8 corner tokens respelled (01, +1, 1//), 1/12 polygons or 2-corner "
             "faces, 1/14 invalid index (0, out of range, negative), short v/vt/vn line or bare usemtl; text layer: "
             "last statement of every kind ended by LF / CRLF / lone CR / nothing, LF-CRLF mixes, leading and "
-            "trailing blanks, blank and comment lines anywhere, 65535-byte line, UTF-8 BOM, 117 fixed endings) through "
+            "trailing blanks, blank and comment lines anywhere, 65535-byte line, lines of 70 000 / 200 000 / 1.1 M "
+            "bytes, UTF-8 BOM, 117 fixed endings; 1/16 corner tokens with colliding digit strings 112, 1/12, 11/2, "
+            "1//12 over tables of 130/30/30 entries) through "
             "ReadMesh -> WriteMeshes -> ReadMesh; stream 3 (1/16): obj.Save -> obj.Load through the file system, and "
             "(N/16) obj.SaveAll of 1-4 named meshes -> obj.Load (groups matched by name: map order); stream 4 (N/8 + 8 "
             "fixed): OBJ text from the grammar plus hand-written .mtl files (0-3 libraries on one or several mtllib "
             "lines, before / after the faces, each defining a random part of the used names in any order, CRLF, "
-            "comments, unknown statements, last newmtl unterminated, 1/12 library missing) -> obj.Load -> obj.Save "
+            "comments, unknown statements, any run of blanks between keyword and name pieces, last newmtl "
+            "unterminated, 1/12 library missing) -> obj.Load -> obj.Save "
             "(one group) or obj.SaveAll (distinct names) into a new directory tree -> obj.Load; materials reused "
             "around another one (red:2 green:1 red:3, nil included) at 1/5 of the meshes; per run one written scene "
             "(3 meshes, ~1500 faces, 3-digit indices, 75-90 KiB) and one OBJ text of 140-220 KiB (g / usemtl lines "
@@ -53,7 +56,8 @@ CFG = {
                 "a .mtl file is the list of its newmtl names (colours, textures, Ns are outside the property and not "
                 "compared); the harness finds them with its own line/field splitter",
                 "the comparison model <-> implementation is on observables (validity + direct meaning of a text, "
-                "group observations + well-formedness of a read result), not on vertex numbering or line order"],
+                "group observations + well-formedness of a read result), not on vertex numbering or line order; "
+                "the text written for an ill-formed mesh list is compared by error class only"],
     "modelled": ["obj.WriteMeshes, obj.WriteMesh (line records, v/vt/vn offsets, g rule, material ranges)",
                  "obj.ReadMesh (tables, per-group corner table keyed by token text, material range counting, only the "
                  "first three corners of an f line, index 0 = absent for vt/vn, error classes Declared / Crash)",
